@@ -144,7 +144,7 @@ Verdicts(s) ==
       Pick(r) == IF ~r.run THEN Dec0(0)
                  ELSE IF r.F.name = "lz10" THEN (IF r.off = 0 THEN d10 ELSE d10w)
                  ELSE (IF r.off = 0 THEN d11 ELSE d11w)
-  IN [e \in 1..Len(Entries) |-> LET r == Route(Entries[e], s) IN ClassOf(r, Pick(r))]
+  IN [e \in 1..Len(Entries) |-> LET r == Route(Entries[e], s) IN ExtRefine(r, s, ClassOf(r, Pick(r)))]
 
 Line(var, s) ==
   LET v    == Verdicts(s)
